@@ -206,6 +206,7 @@ def gen_case(seed, tier):
     config["vendor"] = {"platform": fl.choice(vendors.NAMES), "castable": fl.choice([None, None, "enum", "struct"]),
                         "default_init": fl.random() < 0.3, "comb_domain": fl.random() < 0.1}         # (no init= given: the stages start at the shape's default)
     case["rerun"] = fl.random() < 0.2
+    config["sibling_first"] = fl.random() < 0.3
     if kind in ("ff", "pulse"):
         config["o_async"] = fl.random() < 0.4      # the (pulsed) reset of the output domain is asynchronous
     if kind in ("async", "reset") and not config.get("shadow_neg"):
@@ -516,6 +517,22 @@ def run_case(case):
         run_guarded(res, refuse)
         dig.add(("shadow_neg", kind, stages))
         return finish(res, dig, stats, True)
+    if kind in ("async", "reset") and config.get("sibling_first") and not config.get("shadow_neg"):
+        # another synchroniser of the same kind, on the unrelated domain "x", comes first in the design: every instance has its
+        # own private domain, whatever the others are called
+        from amaranth.hdl import Elaboratable
+        sib_in = Signal(name="sib_arst")
+        sib = cdc.ResetSynchronizer(sib_in, domain="x", stages=2)
+        inner_dut = dut
+
+        class WithSibling(Elaboratable):
+            def elaborate(self, platform):
+                m = Module()
+                m.submodules.sib = sib
+                m.submodules.inner = inner_dut
+                return m
+        dut = WithSibling()
+        P["sibling_synchroniser_first"] = 1
     if config.get("vendor"):
         run_guarded(res, lambda: vendor_ridealong(config, P))
         if res.violation:
